@@ -43,10 +43,12 @@ TRepo   == /\ Is("Repo") /\ Idle /\ \A e \in DOMAIN E.status : E.status[e] = sta
                                           ELSE cnt[e].ok = 0 /\ cnt[e].fail = 0
            /\ UNCHANGED vars /\ l' = l + 1
 
+TList   == Is("List") /\ List(E.route) /\ ListOK(E.route, SetOf(E.ids)) /\ Consume
+
 TraceInit == /\ kind = [e \in EP |-> CHOOSE k \in Kinds : TRUE] /\ up = [e \in EP |-> "up"]
              /\ lists = [e \in EP |-> {}] /\ status = [e \in EP |-> "healthy"] /\ known = [e \in EP |-> {}]
              /\ req = NoReq /\ act = "Init" /\ cnt = [e \in EP |-> [ok |-> 0, fail |-> 0]] /\ scn = <<>> /\ l = 1
-TraceNext == TBoot \/ TUp \/ TRelist \/ THealth \/ TReq \/ TRecv \/ TSilent \/ TDone \/ TRepo
+TraceNext == TList \/ TBoot \/ TUp \/ TRelist \/ THealth \/ TReq \/ TRecv \/ TSilent \/ TDone \/ TRepo
 TraceSpec == TraceInit /\ [][TraceNext]_tvars
 HW == HWMark(l)
 =============================================================================
